@@ -288,6 +288,11 @@ def judge(c):
         norm = strip_frac_zeros(text)
         if back is None or strip_frac_zeros(back) != norm:
             res.append(("violation", "%r parsed with dump_as_parsed prints as %r" % (text, back if back is not None else I[1])))
+    elif I[1] != "TRUNCATED":
+        # more than six fraction digits: printed to six, i.e. the same text with a fraction within 1e-6 of the input's
+        if back is None or not close_text(enc(back), enc(text)):
+            res.append(("violation", "%r parsed with dump_as_parsed prints as %r (the fraction must be the input's to six digits)" % (
+                text, back if back is not None else I[1])))
     return res
 
 
